@@ -2097,6 +2097,11 @@ func ruleParsedKeyFixedWidth(c *report.Ctx) {
 				}
 			case *ssa.Slice:
 				// fine: a window of the decoded buffer
+			case *ssa.Const:
+				if x.Value != nil {
+					bad = p.Desc(v)
+				}
+				// nil: the error returns of a parsing step merged in; they leave before the key is built
 			default:
 				bad = p.Desc(v)
 			}
